@@ -5,7 +5,10 @@ import (
 	"encoding/json"
 	"fmt"
 	"os"
+	"strings"
 	"time"
+
+	c "verifharness/common"
 )
 
 func jobOf(id int, cf *Config, txns []Txn) Job {
@@ -95,7 +98,43 @@ func probeLadder(args []string) {
 	}
 }
 
+// `c05 probe docless [substring]`: the degenerate-file stream, one line per item
+func probeDocless(filter string) {
+	items := doclessItems(c.NewRng(1), 60)
+	var sel []DocItem
+	for _, it := range items {
+		if filter == "" || strings.Contains(it.Label, filter) {
+			sel = append(sel, it)
+		}
+	}
+	jobs := make([]Job, len(sel))
+	for i, it := range sel {
+		jobs[i] = Job{ID: i, Flows: it.Flows, Quotas: it.Quotas, Txns: it.Txns, Gateway: it.Gateway,
+			PathParams: it.PathParams, ProcDefs: it.ProcDefs, GatewayPresent: it.GatewayPresent}
+	}
+	res := runJobs(jobs)
+	for i, it := range sel {
+		r := res[i]
+		line := fmt.Sprintf("%-55s %-16s %s | %s %s", it.Label, r.LoadStatus, r.RejectText, r.EngineLoad, r.EngineText)
+		for _, t := range r.Txns {
+			line += " || " + t.Outcome
+			if t.Outcome != "ok" {
+				line += "(" + t.Text + ")"
+			}
+		}
+		fmt.Println(strings.ReplaceAll(line, "\n", " "))
+	}
+}
+
 func probe() {
+	if len(os.Args) > 2 && os.Args[2] == "docless" {
+		f := ""
+		if len(os.Args) > 3 {
+			f = os.Args[3]
+		}
+		probeDocless(f)
+		return
+	}
 	if len(os.Args) > 2 && os.Args[2] == "foreign" {
 		probeForeign()
 		return
